@@ -1,4 +1,57 @@
-import DesperModel.Disp
+import DesperProofs.Lemmas.DispTop
+/-
+  C10 — Handlers are held weakly and never called after they are gone.
+
+  Model: DesperModel/Disp.lean.  `held` are the objects the program holds a strong reference to,
+  `pinned` the receivers of the callbacks executing right now; `drop o` releases the program's last
+  reference: CPython then finalises `o` at once — or, when `o` is the receiver of an executing
+  callback, as soon as that callback returns — and the weak reference callback
+  `_remove_weak_handler` runs (events.py:59,77-88).  That CPython really frees the object at that
+  moment is runtime behaviour, observed by the harness on the implementation (weakref +
+  gc.collect()), assumed here.
+-/
 open Desper Desper.Disp
 
-theorem C10_placeholder : (1:Nat) = 1 := rfl
+/-- The dispatcher's tables mention live objects only, after every history (operations issued
+from inside callbacks included). -/
+theorem C10_registered_alive (U : Universe) (hU : U.WF) (held hints : List Obj) (fuel : Nat)
+    (ops : List Op) (r : Obj) (l : List (String × String))
+    (h : Dict.get? (run U fuel (init held hints) ops).handlers r = some l) :
+    (run U fuel (init held hints) ops).alive r = true :=
+  (top_state hU held hints fuel ops).1.alive r l h
+
+/-- Dropping the last reference between two operations unregisters the handler completely. -/
+theorem C10_drop_unregisters (U : Universe) (hU : U.WF) (held hints : List Obj) (fuel : Nat)
+    (ops : List Op) (o : Obj) :
+    Dict.get? (dropObj (run U fuel (init held hints) ops) o).handlers o = none ∧
+    (∀ ev x, x ∈ evl (dropObj (run U fuel (init held hints) ops) o) ev → x.1 ≠ o) ∧
+    (dropObj (run U fuel (init held hints) ops) o).alive o = false := by
+  obtain ⟨hi, hp, _, _, _⟩ := top_state hU held hints fuel ops
+  exact drop_unregisters hU hi hp o
+
+/-- An object that is gone is never called again, whatever happens afterwards: along every
+continuation of the run (any operations, any re-entrant callbacks) it stays dead and the number of
+callbacks logged for it does not change. -/
+theorem C10_dead_never_called (U : Universe) (s : St) (o : Obj) (h : s.alive o = false)
+    (fuel : Nat) (ops : List Op) :
+    (run U fuel s ops).alive o = false ∧ callsTo o (run U fuel s ops).log = callsTo o s.log :=
+  dead_reach (c := callsTo o s.log) ⟨h, rfl⟩ (reach_run U fuel s ops)
+
+/-- No callback is ever invoked with a missing (`None`) receiver — also when handlers disappear in
+the middle of a dispatch because an earlier callback of the same event dropped them (`dispatch`
+skips dead referents, events.py:113-121). -/
+theorem C10_no_none_receiver (U : Universe) (hU : U.WF) (held hints : List Obj) (fuel : Nat)
+    (ops : List Op) (m a : String) :
+    Entry.cb none m a ∉ (run U fuel (init held hints) ops).log :=
+  (top_state hU held hints fuel ops).2.2.2.2 m a
+
+/-! non-vacuity: listener 1's callback drops listener 0 in the middle of the dispatch; 0 is skipped -/
+private def exU : Universe :=
+  { mapping := fun o => if o < 2 then some [("e0", "m0")] else none,
+    reaction := fun o _ k => if o = 1 ∧ k = 0 then [.remove 0, .drop 0] else [] }
+
+example :
+    let s := run exU 100 (init [0, 1] [1]) [.add 0, .add 1, .dispatch "e0" "7"]
+    s.log = [.res .ok, .cb (some 1) "m0" "7", .res .ok, .res .ok] ∧ s.alive 0 = false ∧
+    Dict.get? s.handlers 0 = none := by
+  decide
